@@ -46,6 +46,14 @@ CHECKS = {
             "(where the float radius sqrt(2)k could round down) are validated by TraceNN.tla.",
             "Trusted: TLC, Strings.tla. The float radius is outside the model: covered by boundary sessions k<=20 only.",
             "TLA+ model checking (TLC) + spec-to-code replay + trace validation"),
+    "C06": ("DESIGN.md 4/C06",
+            "Estimators.tla reduces 'E[pc_n] = sum p^2 for all p' (and the two-sample and variance claims) to one exact identity per count "
+            "vector (coefficients of p^n of a homogeneous polynomial identity); TLC checks MeanUnbiased / CrossUnbiased / VarUnbiased for every "
+            "count vector within the bounds in exact rationals (a changed coefficient of varpc_n is rejected). VarPcN is the transcription of "
+            "varpc_n: every enumerated vector is executed on pc_n, pc, varpc_n, stdpc_n, stdpc and compared with the spec's rationals; larger "
+            "sampled vectors are evaluated by TLC on harness-chosen inputs.",
+            "Trusted: TLC, Rational.tla, the transcription VarPcN (bound to the code value-by-value). Unbiasedness itself is established only for N, K within the bounds (32-bit rationals).",
+            "TLA+ model checking of exact coefficient identities (TLC) + spec-to-code replay"),
     "C07": ("DESIGN.md 4/C07",
             "NNSearch.tla in Hamming mode (HamInf = infinity for unequal lengths; kdtree per-length buckets keep original positions) "
             "is model-checked for all small lists with every interleaving of lengths and all three engines plus the two-collection "
@@ -87,6 +95,13 @@ CHECKS = {
             "Trusted: TLC, Strings.tla. On 20 letters the comparison is with the constructive neighbourhood sets, shown equal to "
             "{y : Lev(x,y)=1} only on the small universes.",
             "TLA+ model checking (TLC) + spec-to-code replay + trace validation"),
+    "C16": ("DESIGN.md 4/C16",
+            "Estimators.tla gives chao1, chao2, the classical Chao variance and the set-overlap measures as exact rationals with NaN as a value; "
+            "TLC checks ChaoNotBelowObserved, VarChaoExpanded, OverlapSymmetric for all small frequency-of-frequency vectors and all pairs of "
+            "small collections with missing values (the as-found variance formula is rejected). Every enumerated case is executed on the seven "
+            "functions as list / ndarray / set / Series ('does not raise' is a clause); sampled larger inputs are evaluated by TLC.",
+            "Trusted: TLC, Rational.tla. jaccard_index judged with missing values in Series only and non-empty unions (documented behaviour).",
+            "TLA+ model checking (TLC) + spec-to-code replay"),
 }
 
 NOT_YET = {
